@@ -8,6 +8,7 @@ import (
 
 	"helm.sh/helm/v4/pkg/action"
 	chart "helm.sh/helm/v4/pkg/chart/v2"
+	"helm.sh/helm/v4/pkg/storage/driver"
 )
 
 func init() { subs["kube"] = corrKube }
@@ -277,8 +278,80 @@ func corrKube(seed uint64, n int, tier string, out string, replay string) {
 	rep := NewReport("C02", "kube", seed, "case = history of 2-6 operations (install / upgrade / rollback / uninstall, with take-ownership, force, dry-run variants) over manifests of 0-3 resources (typed ConfigMaps and the unstructured test kind, the latter spelled with either of its two API versions from one revision to the next; data, labels, keep / other resource-policy annotations) against the simulated API server behind the real kube.Client, interleaved with out-of-band edits (change / add / delete a field, toggle the keep annotation, delete an object), pre-existing objects in six ownership states, and bystanders; after every operation the object store and the multiset of mutating requests are compared with the Lean cluster model, and the property monitors (targets present with the manifest's fields, removed ones deleted unless kept live, bystanders untouched, stamping, deletes confined) run on the implementation's store and request log; the API server rejects the creation of one object in about one operation in ten and the history goes on through the failed revision; non-trivial = at least 2 operations changed the cluster; distinct = hash of the history")
 	for _, id := range caseSeq("kube", seed, n) {
 		kubeHistory(m, rep, NewRng(id.Seed, uint64(id.Index)), id.Seed, id.Index)
+		if id.Index%25 == 7 {
+			twinGroupCase(rep, NewRng(id.Seed, uint64(id.Index)+1<<32), id.Seed, id.Index)
+		}
 	}
 	rep.Write(out, m)
+}
+
+// twinGroupCase: an object is its API group, kind, namespace and name.  The deployed revision holds
+// apitest/v1 NamespacedType "twin"; the cluster also holds an object of the same kind name and the same name in
+// another API group (othergroup.example/v1), in one of the ownership states.  An upgrade whose manifest adds that
+// other object meets a pre-existing object it does not own: it is refused before anything is changed (or adopts it
+// under --take-ownership, or finds it already its own).
+func twinGroupCase(rep *Report, r *Rng, seed uint64, idx int) {
+	w := newSimWorld(driver.NewMemory())
+	defer w.close()
+	state := Pick(r, []string{"foreign", "foreign", "other-release", "partial", "owned", "absent"})
+	take := r.Chance(25)
+	mine := "apiVersion: apitest/v1\nkind: NamespacedType\nmetadata:\n  name: twin\ndata:\n  k: mine\n"
+	other := "apiVersion: othergroup.example/v1\nkind: NamespacedType\nmetadata:\n  name: twin\ndata:\n  k: theirs-now-mine\n"
+	cm := func(v string) string {
+		return "apiVersion: v1\nkind: ConfigMap\nmetadata:\n  name: settings\ndata:\n  level: \"" + v + "\"\n"
+	}
+	mk := func(ver int, docs map[string]string) *chart.Chart {
+		c := &chart.Chart{Metadata: &chart.Metadata{APIVersion: "v2", Name: "app", Version: fmt.Sprintf("0.0.%d", ver)}}
+		for _, k := range sortedKeys(docs) {
+			c.Templates = append(c.Templates, &chart.File{Name: "templates/" + k + ".yaml", Data: []byte(docs[k])})
+		}
+		return c
+	}
+	cs := map[string]any{"scenario": "twin-group", "state": state, "takeOwnership": take}
+	rep.Count(cs, true)
+	in := action.NewInstall(w.cfg())
+	in.ReleaseName, in.Namespace, in.DisableOpenAPIValidation = "app", "default", true
+	if _, err := in.Run(mk(1, map[string]string{"a-mine": mine, "b-settings": cm("1")}), map[string]any{}); err != nil {
+		rep.Issue(Issue{Kind: "monitor", Fingerprint: "C07:twin:install-failed", What: "installing the first revision failed: " + err.Error(), Case: cs, Seed: seed, Index: idx})
+		return
+	}
+	otherKey := "namespaces/default/othernamespacedtype/twin"
+	if state != "absent" {
+		l, a := ownerMeta(state)
+		md := map[string]any{"name": "twin", "namespace": "default"}
+		if len(l) > 0 {
+			md["labels"] = strMapAny(l)
+		}
+		if len(a) > 0 {
+			md["annotations"] = strMapAny(a)
+		}
+		w.api.mu.Lock()
+		w.api.objs[otherKey] = map[string]any{"apiVersion": "othergroup.example/v1", "kind": "NamespacedType", "metadata": md, "data": map[string]any{"k": "theirs"}}
+		w.api.mu.Unlock()
+	}
+	w.revive()
+	before := canon(storeDump(w))
+	histBefore := canon(implLedger(w))
+	logFrom := len(w.api.log)
+	up := action.NewUpgrade(w.cfg())
+	up.Namespace, up.DisableOpenAPIValidation, up.TakeOwnership = "default", true, take
+	_, err := up.Run("app", mk(2, map[string]string{"a-mine": mine, "a-other": other, "b-settings": cm("2"), "c-extra": strings.Replace(cm("x"), "settings", "extra", 1)}), map[string]any{})
+	muts := w.api.mutations(logFrom)
+	refuse := !take && state != "owned" && state != "absent"
+	rep.H(fmt.Sprintf("twin-group:%s:take=%v:err=%v", state, take, err != nil))
+	if refuse {
+		if err == nil {
+			rep.Issue(Issue{Kind: "monitor", Fingerprint: "C07:twin:adopted-silently", What: "an upgrade adding an object that exists and belongs to " + state + " (same kind name and name as one of the release's objects, another API group) succeeded without --take-ownership", Case: cs, Impl: muts, Seed: seed, Index: idx})
+			return
+		}
+		if len(muts) > 0 || canon(storeDump(w)) != before || canon(implLedger(w)) != histBefore {
+			rep.Issue(Issue{Kind: "monitor", Fingerprint: "C07:twin:refusal-after-mutation", What: "the upgrade was refused only after the cluster or the history had been changed: " + trunc(err.Error(), 200), Case: cs, Model: histBefore, Impl: map[string]any{"requests": muts, "history": implLedger(w)}, Seed: seed, Index: idx})
+		}
+		return
+	}
+	if err != nil {
+		rep.Issue(Issue{Kind: "monitor", Fingerprint: "C07:twin:refused-own", What: "an upgrade adding an object that is absent / its own / taken over with --take-ownership failed: " + trunc(err.Error(), 200), Case: cs, Seed: seed, Index: idx})
+	}
 }
 
 type kubeStep struct {
